@@ -265,12 +265,16 @@ class _SessionRegistry:
             entry = self._entries.get(session_id)
             if entry is None:
                 return None
-            if entry.expires_at < now:
+            expired = entry.expires_at < now
+            if expired:
                 del self._entries[session_id]
-                self._close_state_suppressed(entry.state)
+            elif entry.principal_key != principal_key:
                 return None
-            if entry.principal_key != principal_key:
-                return None
+        if expired:
+            # Closed outside the registry lock: _close_entry waits for any
+            # in-flight call on this session, which must not stall other sessions.
+            self._close_entry(entry)
+            return None
         return entry
 
     def holds(self, session_id: bytes, entry: _SessionEntry) -> bool:
@@ -284,7 +288,7 @@ class _SessionRegistry:
             entry = self._entries.pop(session_id, None)
         if entry is None:
             return False
-        self._close_state_suppressed(entry.state)
+        self._close_entry(entry)
         return True
 
     def drain_expired(self, now: float | None = None) -> int:
@@ -295,7 +299,7 @@ class _SessionRegistry:
             expired_sids = [sid for sid, e in self._entries.items() if e.expires_at < now]
             expired = [self._entries.pop(sid) for sid in expired_sids]
         for entry in expired:
-            self._close_state_suppressed(entry.state)
+            self._close_entry(entry)
         return len(expired)
 
     def shutdown(self) -> None:
@@ -309,7 +313,7 @@ class _SessionRegistry:
             entries = list(self._entries.values())
             self._entries.clear()
         for entry in entries:
-            self._close_state_suppressed(entry.state)
+            self._close_entry(entry)
 
     def __len__(self) -> int:
         with self._lock:
@@ -318,6 +322,19 @@ class _SessionRegistry:
     def __iter__(self) -> Iterator[bytes]:
         with self._lock:
             return iter(list(self._entries.keys()))
+
+    def _close_entry(self, entry: _SessionEntry) -> None:
+        """Invoke ``state.close()`` for an entry already removed from the registry.
+
+        Takes the per-session lock first so the close hook never runs while a
+        call is dispatching against the session: an in-flight call finishes,
+        then the state is closed. The lock is re-entrant, so callers that
+        already hold it (DELETE, ``close_session()``) are unaffected. Must be
+        called without the registry lock held — dispatch acquires the session
+        lock before it touches the registry, never the other way round.
+        """
+        with entry.lock:
+            self._close_state_suppressed(entry.state)
 
     @staticmethod
     def _close_state_suppressed(state: object) -> None:
